@@ -126,7 +126,13 @@ SITES = [
     "output", "echo", "assign", "filter-arg", "filter-kwarg", "path-segment", "case-when", "cycle-item", "cycle-group",
     "with-arg", "include-arg", "render-arg", "call-arg", "macro-default", "array-literal", "tstr-before", "tstr-after", "ternary-left",
     "ternary-else", "compare", "liquid-echo", "include-name", "render-with", "default-filter",
+    "tstr-after-inner-string", "render-name", "extends-name", "counter-name", "group-name-respelled", "macro-name", "block-name", "alias-name",
 ]  # fmt: skip
+
+
+def respell(intended: str) -> str:
+    """Another valid spelling of the same string: double-quoted, every non-ASCII character as a \\u escape."""
+    return json.dumps(intended).replace("${", "\\${")
 
 
 def site_program(site: str, lit: str, intended: str) -> tuple[str, dict[str, str], dict[str, Any], str] | None:
@@ -194,6 +200,32 @@ def site_program(site: str, lit: str, intended: str) -> tuple[str, dict[str, str
         return ("{% include " + lit + " %}", partials, data, "included")
     if site == "default-filter":
         return ("{{ missing | default: " + lit + " | json }}", partials, data, "json")
+    if site == "tstr-after-inner-string":
+        # the interpolation contains a string written with the OTHER quote; the literal text follows it
+        oq = '"' if q == "'" else "'"
+        data = {"v": "V"}
+        return ("{{ " + q + "${ v | append: " + oq + "!" + oq + " }" + lit[1:] + " | json }}", partials, data, "json-prefix-V!")
+    if site in ("render-name", "extends-name"):
+        if intended == "":
+            return None
+        partials = {intended: "INCLUDED"}
+        return ("{% " + site.split("-")[0] + " " + lit + " %}", partials, data, "included")
+    # names: the same name written a second time in another spelling must be the same name
+    if site in ("counter-name", "group-name-respelled", "macro-name", "block-name", "alias-name"):
+        if intended == "" or "\n" in lit or "\r" in lit:
+            return None
+        other = respell(intended)
+        if site == "counter-name":
+            return ("{% increment " + lit + " %}{% increment " + other + " %}{% decrement " + lit + " %}", partials, data, "011")
+        if site == "group-name-respelled":
+            return ("{% cycle " + lit + ": 1, 2 %}{% cycle " + other + ": 1, 2 %}", partials, data, "12")
+        if site == "macro-name":
+            return ("{% macro " + lit + " %}M{% endmacro %}{% call " + other + " %}", partials, data, "M")
+        if site == "block-name":
+            partials = {"nb": "<{% block " + other + " %}base{% endblock %}>"}
+            return ("{% extends 'nb' %}{% block " + lit + " %}over{% endblock %}", partials, data, "<over>")
+        partials = {"pa": "{{ [" + other + "] }}"}
+        return ("{% include 'pa' with 'val' as " + lit + " %}{% render 'pa' with 'val' as " + lit + " %}", partials, data, "valval")
     raise ValueError(site)
 
 
@@ -248,6 +280,11 @@ def check_string(site: str, intended: str, lit: str, res: ShardResult | None) ->
             ok = rendered == intended
         elif obs == "included":
             got, ok = rendered, rendered == "INCLUDED"
+        elif obs == "json-prefix-V!":
+            got = json.loads(rendered)
+            ok = got == "V!" + intended
+        elif obs in ("011", "M", "<over>", "valval"):
+            got, ok = rendered, rendered == obs
         else:
             raise ValueError(obs)
     except (ValueError, IndexError) as e:
